@@ -181,21 +181,28 @@ def run(ctx):
     ctx.analysed(p.path)
     pf_ = Flow(p.body)
     n = 0
+    # the sender time local = the binding of `Ok(Some(x))` of get_sender_current_time(pkt), whatever it is called (`res` today)
+    SCT = "res"
+    psl_ = Slicer(p.body)
+    for nm_, ds_ in psl_.var_defs().items():
+        for d_ in ds_:
+            if d_[0] == "" and re.search(r"get_sender_current_time\(.*\)@Ok\.0@Some\.0$", show(psl_.expand(d_[1]), 200)):
+                SCT = nm_
     for a in field_accesses(prog, FR, "sender_current_time_late", funcs=[p]):
         if a["kind"] != "assign":
             continue
         n += 1
         fs = pf_.facts_at(a["bb"])
-        lt = [t2 for (aa, t2) in fs if aa[0] == "lt" and show(aa[1]) == "res" and show(aa[2]) == "now"]
-        ge = [t2 for (aa, t2) in fs if aa[0] == "le" and show(aa[1]) == "now" and show(aa[2]) == "res"]
+        lt = [t2 for (aa, t2) in fs if aa[0] == "lt" and show(aa[1]) == SCT and show(aa[2]) == "now"]
+        ge = [t2 for (aa, t2) in fs if aa[0] == "le" and show(aa[1]) == "now" and show(aa[2]) == SCT]
         v = show(a["value"])
         key = "FdtReceiver::push late = %s" % v
         direct = False
         if v not in ("True", "False"):
             # `late = res < now` (or an equivalent spelling): the assigned value is the comparison itself
             from ..cfg import facts_of
-            ex = Slicer(p.body).expand(a["value"], stop=("res", "now"))
-            direct = any(aa[0] == "lt" and t2 and show(polarity.strip(aa[1])) == "res" and show(polarity.strip(aa[2])) == "now" for (aa, t2) in facts_of(ex, True))
+            ex = Slicer(p.body).expand(a["value"], stop=(SCT, "now"))
+            direct = any(aa[0] == "lt" and t2 and show(polarity.strip(aa[1])) == SCT and show(polarity.strip(aa[2])) == "now" for (aa, t2) in facts_of(ex, True))
         if direct:
             r3.ok("FdtReceiver::push late = (res < now)", "the flag is the comparison itself", loc(a["sp"]))
         elif (v == "True" and lt and all(lt)) or (v == "False" and ge and all(ge)):
@@ -207,12 +214,12 @@ def run(ctx):
             continue
         n += 1
         fs = pf_.facts_at(a["bb"])
-        late = any(aa[0] == "lt" and t2 and show(aa[1]) == "res" and show(aa[2]) == "now" for (aa, t2) in fs)
+        late = any(aa[0] == "lt" and t2 and show(aa[1]) == SCT and show(aa[2]) == "now" for (aa, t2) in fs)
         cs = [c for c in walk(a["value"]) if c[0] == "call" and c[1].endswith("SystemTime::duration_since")]
         key = "FdtReceiver::push offset (%s)" % ("late" if late else "early")
         if cs:
             recv, arg = show(polarity.strip(cs[0][2][0])), show(polarity.strip(cs[0][2][1]))
-            if (late and recv == "now" and arg == "res") or (not late and recv == "res" and arg == "now"):
+            if (late and recv == "now" and arg == SCT) or (not late and recv == SCT and arg == "now"):
                 r3.ok(key, "%s.duration_since(%s)" % (recv, arg), loc(a["sp"]))
             else:
                 r3.violation(key, "offset computed as %s.duration_since(%s) on the %s edge" % (recv, arg, "late" if late else "early"), loc(a["sp"]))
